@@ -27,7 +27,7 @@ ASSUMPTIONS = [
     "joblib.Parallel is replaced by running the worker function for every chunk index in a chosen order (each worker has its own file handles); real process scheduling is outside",
     "NBATCH=4096 (nbatch argument), recording length symbolic with at most the stated number of batches; values as exact reals",
 ]
-OUTSIDE = ["numeric values of the filters", "byte identity under real joblib process scheduling", "whitening (wrot) numerics"]
+OUTSIDE = ["numeric values of the filters", "byte identity under real joblib process scheduling", "whitening (wrot) beyond a scalar factor and one concrete 3x3 matrix"]
 EXPLANATION = "a skolem output row stands for every sample; every tofile record of every worker that covers the row must carry the oracle's content."
 LEVEL_TEXT = ("For every recording length (within the batch bound), worker counts 1..2 (quick) / 1..4 (thorough) in different execution orders, padding, channel rejection and car/k-filter settings, z3 decides: no feasible input raises, "
               "the output has ns+padding rows, every row is covered by a write and every write covering it carries the oracle content for that row (hence the same bytes for any worker count), the sync columns are the raw sync words, "
@@ -502,3 +502,4 @@ not_reproduced()
 
 # level text addendum (cases added after the seeded-change rounds)
 LEVEL_TEXT = LEVEL_TEXT + ' Also: a non-append run over a stale longer output, float32 output with two workers, a scalar whitening factor (sync column untouched).'
+LEVEL_TEXT = LEVEL_TEXT + ' Round 6: a non-diagonal whitening matrix on a probe with mixed gains (normalise, then whiten; lazy-array matrix product).'
